@@ -2,6 +2,7 @@ package c20lib
 
 import (
 	"fmt"
+	"os"
 	"time"
 )
 
@@ -35,8 +36,28 @@ func Plan(thorough bool, run RunFn) {
 	if thorough {
 		dA = 5
 	}
-	for _, mode := range []string{"tx", "own"} {
-		run("A", mode, dA, namesA, len(alphaA), nil, 0)
+	if os.Getenv("C20_ONLY") != "B" {
+		for _, mode := range []string{"tx", "own"} {
+			run("A", mode, dA, namesA, len(alphaA), nil, 0)
+		}
+	}
+	if os.Getenv("C20_ONLY") == "A" {
+		return
+	}
+	alphaB := BAlphabet(thorough)
+	namesB := func(p []int) []string {
+		var n []string
+		for _, i := range p {
+			n = append(n, alphaB[i].String())
+		}
+		return n
+	}
+	dB := 3
+	if thorough {
+		dB = 4
+	}
+	for _, cfg := range BConfigs {
+		run("B", cfg.Name, dB, namesB, len(alphaB), nil, 0)
 	}
 }
 
@@ -81,7 +102,11 @@ func probeB() {
 		}
 		panic("no recipe " + s)
 	}
+	Debug = os.Getenv("C20_DEBUG") != ""
 	for _, cfg := range BConfigs {
+		if f := os.Getenv("C20_CFG"); f != "" && f != cfg.Name {
+			continue
+		}
 		for _, seq := range [][]string{
 			{},
 			{"tick", "tick"},
